@@ -250,6 +250,52 @@ and `merge_source_locations` of its tokens yields it. -/
 example : mergeLocs [tokLoc 2 2 5, ⟨0, 0, 0, 0, false⟩, tokLoc 2 8 1, tokLoc 2 11 1] =
     .ok (some ⟨2, 3, 2, 13, false⟩) := by rfl
 
+/-- **`module_ir`'s hand-built locations stay inside the file.**  Every location `module_ir`
+constructs by hand is `SourceLocation(a.<start|end>, b.<start|end>)` for locations `a`, `b` of
+nodes it already holds.  For produced `a`, `b` and any choice of endpoints: if the
+constructor's assertions hold the result is `Produced` (hence `InFile`, hence rendered with a
+caret inside its line — `C16_caret_in_line`); and the assertions hold exactly when the chosen
+endpoints are in order (the "both or neither missing" assertion cannot fail: produced
+locations have no missing endpoint).  That the real constructions have this shape, on real
+arguments, is the `SPAN` tie (every `SourceLocation(...)` call `module_ir` makes while the
+explored inputs are parsed) plus the oracle "every location of every IR node is `InFile`". -/
+theorem C16_module_ir_locations (lines : List Text) (a b : Loc) (ea eb : End)
+    (ha : Produced lines a) (hb : Produced lines b) :
+    (∀ l, spanLoc a ea b eb = .ok l → Produced lines l ∧ InFile l lines) ∧
+    (posLe (a.pos ea).1 (a.pos ea).2 (b.pos eb).1 (b.pos eb).2 = true ↔
+      ∃ l, spanLoc a ea b eb = .ok l) := by
+  refine ⟨fun l h => ?_, ?_⟩
+  · have hp := spanLoc_produced lines a b ea eb l ha hb h
+    exact ⟨hp, produced_inFile lines l hp⟩
+  · have hza := produced_line_pos lines _ (produced_endpoint lines a ha ea)
+    have hzb := produced_line_pos lines _ (produced_endpoint lines b hb eb)
+    simp only at hza hzb
+    have h0 : ((a.pos ea).1 == 0) = ((b.pos eb).1 == 0) := by
+      have h1 : ((a.pos ea).1 == 0) = false := by simpa using hza.1
+      have h2 : ((b.pos eb).1 == 0) = false := by simpa using hzb.1
+      rw [h1, h2]
+    constructor
+    · intro hle
+      exact ⟨⟨(a.pos ea).1, (a.pos ea).2, (b.pos eb).1, (b.pos eb).2, false⟩,
+        by simp [spanLoc, mkLoc, hle, h0]⟩
+    · rintro ⟨l, hl⟩
+      unfold spanLoc mkLoc at hl
+      split at hl
+      · rename_i hc
+        simp only [Bool.and_eq_true] at hc
+        exact hc.1
+      · cases hl
+
+/-- Non-vacuity: `-x` on line 2 (tokens `-` at offset 10 and `x` at offset 11): the phantom zero
+`SourceLocation(op.start, op.start)` and the whole expression `SourceLocation(op.start, x.end)`;
+the empty `[]` of `UInt[]` (`SourceLocation(open.end, close.start)`); and an out-of-order pair
+trips the constructor's assertion. -/
+example :
+    spanLoc (tokLoc 2 10 1) .start (tokLoc 2 10 1) .start = .ok ⟨2, 11, 2, 11, false⟩ ∧
+    spanLoc (tokLoc 2 10 1) .start (tokLoc 2 11 1) .stop = .ok ⟨2, 11, 2, 13, false⟩ ∧
+    spanLoc (tokLoc 2 14 1) .stop (tokLoc 2 15 1) .start = .ok ⟨2, 16, 2, 16, false⟩ ∧
+    spanLoc (tokLoc 2 11 1) .stop (tokLoc 2 10 1) .start = .error () := ⟨rfl, rfl, rfl, rfl⟩
+
 /-- **Caret line (full).**  For every produced location whose first line is shown, the
 indicator is `column − 1` blanks followed by one caret per located character (at least one;
 exactly one when the span continues on a later line), and it never extends past the
@@ -314,8 +360,9 @@ example : InLine ⟨2, 3, 2, 7, false⟩ "  0 [+1] UInt x".toList := by
 
 /-- **`_find_in_dirs_and_read` never raises on file-system faults.**  When opening the file
 fails in a directory with an `OSError` (missing, directory, path through a file, name too
-long, permission, symlink loop …) or a `UnicodeError`, the search goes on; the result is the
-text of the first directory where the file can be read (every earlier directory failed), or
+long, permission, symlink loop …), a `UnicodeError`, or any other `ValueError` (`open()`
+rejecting the name itself: "embedded null byte" — caught since 9d2590a), the search goes on; the
+result is the text of the first directory where the file can be read (every earlier directory failed), or
 `(None, errors)` with one detail per directory plus the import path — a non-empty list, so
 `glue.parse_module` takes its "Unable to read file." branch. -/
 theorem C16_find_and_read_total (probes : List (Text × Probe))
@@ -342,6 +389,13 @@ file in the third. -/
 example : findAndRead [("a".toList, .osError "Is a directory".toList),
       ("b".toList, .unicodeError "invalid start byte".toList), ("c".toList, .text ['x'])] =
     .found ['x'] := by decide
+
+/-- A file name with an embedded NUL: `open()` raises a plain `ValueError` in every directory;
+reported as unreadable (one detail per directory + the import path), not raised. -/
+example : findAndRead [("a".toList, .valueError "embedded null byte".toList),
+      ("b".toList, .valueError "embedded null byte".toList)] =
+    .notFound ["embedded null byte".toList, "embedded null byte".toList, "import path a:b".toList] := by
+  decide
 
 /-- The seeded narrowing `except FileNotFoundError` is the situation `otherError`: with a
 class of failure that is not caught the call raises. -/
@@ -510,8 +564,6 @@ theorem C16_parse_error_group (file : String) (code : Option Text) (tt ts : Text
   | some l =>
     refine ⟨l, rfl, ?_⟩
     simp only [locOrDefault] at hs
-    split at hs
-    · simp at hs
-    · exact hs
+    split at hs <;> simp_all
 
 end Emboss.Pipeline
